@@ -104,6 +104,37 @@ def events : List Bytes → List Ev
   | [] :: _ => [.eof]
   | c :: cs => .data c :: events cs
 
+/-- when the served chunks end with the zero-byte read and no earlier chunk is empty, the events carry exactly the chunks' bytes and end the stream -/
+theorem events_of_closed (chunks : List Bytes) (hne : ∀ c ∈ chunks, c ≠ []) :
+    dataOf (events (chunks ++ [[]])) = chunks.flatten ∧ EndsEof (events (chunks ++ [[]])) := by
+  induction chunks with
+  | nil => simp [events, dataOf, EndsEof]
+  | cons c cs ih =>
+    have hc := hne c (by simp)
+    obtain ⟨i1, i2⟩ := ih (fun x hx => hne x (by simp [hx]))
+    cases c with
+    | nil => exact absurd rfl hc
+    | cons x xs => simp only [List.cons_append, events, dataOf, EndsEof, List.flatten_cons, i1, i2, and_self]
+
+/-- **packets over the WebSocket transport = packets over TCP**: however the frames are distributed over binary
+messages (and whatever other messages are interleaved), once the adaptor has served everything and reported
+the closure, the connection's results are exactly one per frame, then `disconnected` -/
+theorem packets (cfg : Cfg) (frames : List Bytes) (msgs : List Msg) (offers : List Nat) (chunks : List Bytes)
+    (hv : ∀ f ∈ frames, ValidFrame cfg.mode f) (hp : ∀ f ∈ frames, cfg.parse f.tail ≠ .panic)
+    (hsplit : (msgs.map payload).flatten = frames.flatten)
+    (hrun : (Ws.run true [] offers msgs).1 = chunks ++ [[]]) (hne : ∀ c ∈ chunks, c ≠ [])
+    (hall : (Ws.run true [] offers msgs).2.1 = [] ∧ ((Ws.run true [] offers msgs).2.2.map payload).flatten = []) :
+    (Conn.run cfg [] (events (Ws.run true [] offers msgs).1)).filter (fun i => !i.isFault) =
+      frames.flatMap (frameItems cfg) ++ [.err .disconnected] := by
+  obtain ⟨e1, e2⟩ := events_of_closed chunks hne
+  rw [hrun]
+  apply C05.reassembly_fresh cfg frames hv hp
+  · rw [e1]
+    have := stream_conserved true [] offers msgs
+    rw [hall.1, hall.2, hrun] at this
+    simpa [hsplit] using this
+  · exact e2
+
 /-- **every written packet leaves as exactly one binary message containing exactly its frame** -/
 theorem write_one_message (frames : List Bytes) (sent : List Msg) :
     frames.foldl (fun s f => Ws.write f s) sent = sent ++ frames.map Msg.binary := by
@@ -114,5 +145,10 @@ theorem write_one_message (frames : List Bytes) (sent : List Msg) :
 /-! non-vacuity: a frame split across two messages with a ping in between, caller buffer of 3 bytes -/
 example : (Ws.run true [] [3, 3, 3, 3] [.binary [1, 3], .other, .binary [0, 0, 1, 3, 7, 5]]).1 = [[1, 3], [0, 0, 1], [3, 7, 5], []] := by
   decide
+
+/-- non-vacuity of `packets`: two frames spread over two binary messages with a text message in between, served
+in slices of three bytes, then the closure -/
+example : (Ws.run true [] [3, 3, 3, 3, 3, 3] [.binary [4, 3, 0, 0, 4], .other, .binary [3, 7, 3]]) =
+    ([[4, 3, 0], [0, 4], [3, 7, 3]] ++ [[]], [], []) := by decide
 
 end Insim.Props.C20
